@@ -156,6 +156,71 @@ CLAIMED = {
               "canonicalisation (unused xmlns declarations left on inner elements are ignored, see DESIGN §6)."),
         technique="Lean 4 proof (mutual structural induction on an inductive noise-insertion relation) + cleanup-pass correspondence + metamorphic conversion search",
         ref="DESIGN.md §4 C14"),
+    "C02": dict(
+        text=("Lean 4 theorems (exact arithmetic, any ordered field) about the transform bookkeeping the flattening rests on: "
+              "ctm_snoc / ctm_mapPt — the transform accumulated parent-first by _element_transform maps a point through the "
+              "innermost transform first and the outermost last for chains of any depth (elementTransform_step ties the step "
+              "to the model of the code); use_instance / use_under_ctm — an instance is placed at T_use(p + (x,y)) under any "
+              "CTM; viewport_none_under_ctm, viewport_meet_inside (with C11's rect_to_rect theorems) for nested svg; "
+              "replace_keeps_order — replacing one sibling by any list keeps all others in place and order (z-order). The "
+              "end-to-end claim is judged on every run: the ordered stack of visible paints of source and converted "
+              "document at 64 points per document (independent renderer, geometry through the Lean path specification), and "
+              "the pipeline model vs the implementation (trees + Skia questions) on the structural grammar to depth 4. Not "
+              "proved: that Skia's path transform realises the matrix, and the composition of the steps into one theorem."),
+        note="Trusted: Lean kernel; standard axioms; harness/render.py; Skia as oracle. Genuine defects found with the renderer and repaired (e342f4a, 833c48c).",
+        technique="Lean 4 proof (affine algebra, induction over ancestor chains) + pipeline correspondence + rendering judge",
+        ref="DESIGN.md §4 C02"),
+    "C03": dict(
+        text=("Lean 4 theorems relative to Spec.EngineSpec (the assumed behaviour of Skia's boolean operations): "
+              "clipped_geometry — the path returned for intersection((shape, *clips)) covers exactly the points inside the "
+              "shape under its fill rule and inside every clip, for any number of clips, and reads the same under nonzero and "
+              "evenodd; clip_region — union(children) covers exactly the points inside at least one child under its own "
+              "clip-rule; nested_clip_region; stack_clips — clips accumulate along the ancestor chain; clip_child_placement — "
+              "child transform, clipPath transform, then the CTM of the referencing element. Which calls the code makes "
+              "(operands, rules, order, matrices) is compared verbatim with the model on every run, the result is judged by the "
+              "renderer (ordered paint stacks at 64 points per document) and no clip-path may survive. Not judged: a transform "
+              "on a clipPath that is itself clipped (read differently by the specification text and by renderers)."),
+        note="Trusted: Lean kernel; standard axioms; EngineSpec hypotheses (Skia); harness/render.py. One genuine defect repaired (833c48c).",
+        technique="Lean 4 proof (set algebra of the clip plan over an abstract engine) + oracle-question correspondence + rendering judge",
+        ref="DESIGN.md §4 C03"),
+    "C04": dict(
+        text=("The outline geometry is Skia's stroker (oracle; every parameter the code passes is compared with the model). Proved: "
+              "dash_cycle — the list handed to the stroker (SVG list, doubled when odd: dashArray_shape about the model) gives "
+              "every interval k of SVG's infinite dash/gap alternation the same length and the same on/off state, for lists "
+              "of any length; split_opaque / split_only_fill / split_only_stroke — the two pieces _stroke emits (fill at "
+              "opacity x fill-opacity, outline with the stroke paint at opacity x stroke-opacity) composite exactly like the "
+              "stroked shape in the property's scope, split_translucent_differs outside it; stroke_above_fill. Judged on every "
+              "run: composited colour of source and converted document at points the three-valued stroke evaluator classifies "
+              "as definitely inside / outside, under ancestor transforms incl. non-uniform scaling."),
+        note="Trusted: Lean kernel; standard axioms; Skia's stroker (0.25 unit resolution); harness/render.py stroke evaluator.",
+        technique="Lean 4 proof (dash index arithmetic, compositing algebra) + oracle-question correspondence + rendering judge",
+        ref="DESIGN.md §4 C04"),
+    "C05": dict(
+        text=("Lean 4 theorems over the compositing specification Spec/Composite.lean (premultiplied source-over, group opacity; "
+              "any commutative ring): over_assoc, onto_eq_over; flatten_sound — whenever the code's _is_removable_group "
+              "decision (Groups.removableCore: at most one child, or clamped opacity 0 or 1) says remove, replacing the group "
+              "by its children with the opacity multiplied in leaves every layer stack containing it unchanged, at any "
+              "position; flatten_unsound_two_children — for two overlapping children and 0 < opacity < 1 it does not, so such "
+              "groups must be kept (and are: C01 kept_group); nested_single, leaf_alpha_mul for opacity products. Judged on "
+              "every run: composited colour of source and converted document at 64 points per document on the cascade grammar "
+              "(attributes and style declarations on shapes, groups, root and use; overlapping geometry), and the pipeline "
+              "model vs the implementation. Not proved: the cascade (style over attribute over inherited) as one theorem — it "
+              "is part of the model and compared per run."),
+        note="Trusted: Lean kernel; standard axioms; harness/render.py. Genuine defects found and repaired: root opacity dropped (c355515), explicit default paint on a use target lost (e342f4a).",
+        technique="Lean 4 proof (associativity of source-over, soundness and necessity of the flattening rule) + pipeline correspondence + rendering judge",
+        ref="DESIGN.md §4 C05"),
+    "C06": dict(
+        text=("Lean 4 theorems (exact arithmetic): every rewrite keeps the gradient parameter of every user-space point — bake_ctm "
+              "(compose_ltr((gradientTransform, T)) sends the gradient-space pre-image of q to T q), bbox_units "
+              "(objectBoundingBox to user space), fold_translation / fold_translation_radial (translation folded into the "
+              "coordinates: same user-space point, linear parameter and radial circle family invariant under the joint shift), "
+              "bake_then_fold. Rounding to 6 decimals is bounded by C01's rounding_half_unit. Judged on every run: the colour "
+              "the source's and the converted document's gradients give at 64 interior points per document (independent "
+              "gradient evaluator), every output gradient self-contained, and the pipeline model vs the implementation incl. "
+              "every rewritten gradient attribute. Not proved: template (href) inheritance and spreadMethod handling."),
+        note="Trusted: Lean kernel; standard axioms; harness/render.py gradient evaluator.",
+        technique="Lean 4 proof (affine and gradient-parameter algebra) + pipeline correspondence + rendering judge",
+        ref="DESIGN.md §4 C06"),
     "C15": dict(
         text=("Refinement theorem in Lean for an abstract cached object (tree, optional shape cache, load, store) under the lens "
               "laws PutGet and PutPut, GetPut deliberately not assumed: sim_step / run_refines — after any history of shape-level "
